@@ -219,6 +219,7 @@ def validate(_, mapfiles, expand, version):
         except Exception as ex:
             logger.exception(ex)
             click.echo(f"{fn} failed to parse successfully")
+            errors += 1
             continue
 
         validation_messages = mappyfile.validate(d, version)
@@ -238,7 +239,8 @@ def validate(_, mapfiles, expand, version):
     click.echo(
         f"{len(all_mapfiles)} file(s) validated ({validation_count} successfully)"
     )
-    sys.exit(errors)
+    # exit codes are limited to 0-255 (256 errors would otherwise be reported as success)
+    sys.exit(min(errors, 255))
 
 
 @main.command(short_help="Export a Mapfile Schema")
